@@ -50,6 +50,9 @@ META = {
             "eviction oracle. The two defects found by this check and since fixed in /repo (f30bc16, c2af732) stay documented as decided "
             "witnesses on the pre-fix model variants (prefix_removeTx_witness, pre_c2af732_reset_gap_witness). Every run replays >10k real pool transitions through the model and "
             "evaluates the clauses on every observed state.",
-    "note": GEN + " The heap property of the container/heap array algorithms is not proved: the model uses them through run-time checked "
-                  "wrappers with a correct fallback, and the driver reports any fallback or any dumped array that is not a heap.",
+    "note": GEN + " The container/heap array algorithms as mirrored (up, down, Push, Pop, Init; order = price only, as priceHeap.Less here) are "
+                  "proved correct (heap_up_preserves, heap_down_preserves, heap_init_establishes, heap_push_pop_spec); the former run-time "
+                  "check is only the driver's assertion, proved never to fire (priced_check_never_fires). 'stales = number of dead heap "
+                  "entries' is NOT an invariant of this code (stales_not_dead_count_witness: duplicate Put by enqueueTx, Removed() after "
+                  "Discard's pop); stales_reheap_exact states what a re-heap guarantees. journal.load on restart is not modelled.",
 }
